@@ -11,7 +11,7 @@ program code.
 import ast
 
 from .core import AnalysisError
-from .cfg import cfg_of
+from .cfg import cfg_of, assume
 from .exprs import dotted, unparse, walk_no_nested, root_attr, ekey, strip_not, const_value
 from .lockstep import Tracker
 from .resolve import resolver
@@ -215,22 +215,13 @@ def rule_A4(ctx, rid='A4'):
                 # the cube part of transform is an affine map written inline: find the store
                 uses = [st for st in walk_no_nested(f.node) if isinstance(st, ast.Assign) and
                         isinstance(st.targets[0], ast.Subscript) and cfg.has(st) and
-                        any(g for g in cfg.strict_guards(cfg.node_of(st).id)
-                            if '%s.cube' % selfn in unparse(cfg.nodes[g[0]].expr))]
+                        cfg.has_fact(cfg.node_of(st).id, '%s.cube is None' % selfn, False)]
             ctx.require(uses, 'UnitCubeEllipsoidMixture.%s: use of %s not found' % (meth, comp))
             for u in uses:
                 nid = cfg.node_of(u).id
                 st = cfg.nodes[nid].ast
                 # presence guard
-                g_ok = False
-                for t, lab in cfg.strict_guards(nid):
-                    e = cfg.nodes[t].expr
-                    if isinstance(e, ast.Compare) and dotted(e.left) == '%s.%s' % (selfn, comp) \
-                            and isinstance(e.comparators[0], ast.Constant) and \
-                            e.comparators[0].value is None:
-                        if (isinstance(e.ops[0], ast.IsNot) and lab is True) or \
-                                (isinstance(e.ops[0], ast.Is) and lab is False):
-                            g_ok = True
+                g_ok = cfg.has_fact(nid, '%s.%s is None' % (selfn, comp), False)
                 # index names used in the statement and their polarity
                 pol = set()
                 for sub in ast.walk(st):
@@ -340,15 +331,14 @@ def rule_M1(ctx, rid='M1'):
                     'self.cube.contains' in unparse(e.extra.get('selector'))]
         g_ok = False
         for e in cube_sel:
-            for t, lab in cfg.strict_guards(e.nid):
-                if unparse(cfg.nodes[t].expr) == 'self.cube is not None' and lab is True:
-                    g_ok = True
+            if cfg.has_fact(e.nid, 'self.cube is None', False):
+                g_ok = True
         cache = [n for n in cfg.nodes if n.kind == 'stmt' and isinstance(n.ast, ast.Assign) and
                  dotted(n.ast.targets[0]) == 'self.points' and
                  any(isinstance(s, ast.Name) and s.id == pname for s in ast.walk(n.ast.value))]
         ok = bool(cube_sel) and g_ok and bool(cache) and all(
             cfg.must_pass(ms.id, cn.id, {e.nid for e in cube_sel},
-                          edge_ok=_assume_true('self.cube is not None')) for cn in cache)
+                          edge_ok=assume(('self.cube is None', False))) for cn in cache)
         ctx.ob(rid, 'Union.sample:cube-filter', ok, f.where(),
                'when the union is restricted to the unit cube, proposals are filtered by '
                'cube.contains() before they are cached' if ok else
@@ -376,10 +366,8 @@ def rule_M1(ctx, rid='M1'):
             v = n.ast.value
             is_and = (isinstance(n.ast, ast.AugAssign) and isinstance(n.ast.op, ast.BitAnd)) or \
                 (isinstance(v, ast.BinOp) and isinstance(v.op, ast.BitAnd))
-            for t, lab in ccfg.strict_guards(n.id):
-                if unparse(ccfg.nodes[t].expr) == 'self.cube is not None' and lab is True and \
-                        is_and:
-                    cube_conj = True
+            if ccfg.has_fact(n.id, 'self.cube is None', False) and is_and:
+                cube_conj = True
     ctx.ob(rid, 'Union.contains:cube-conjunct', cube_conj, c.where(),
            'contains() is additionally restricted by cube.contains() under the same guard as '
            'sample()' if cube_conj else
@@ -447,12 +435,11 @@ def rule_M1(ctx, rid='M1'):
                     i.ast.value.args and isinstance(i.ast.value.args[0], ast.Name) and
                     i.ast.value.args[0].id == rn):
                 okf = False
-            if not any(unparse(cfg.nodes[t].expr) == 'self.shift is not None' and lab is True
-                       for t, lab in cfg.strict_guards(i.id)):
+            if not cfg.has_fact(i.id, 'self.shift is None', False):
                 okf = False
         # every return is preceded by the inverse shift when a shift exists
         if inv and not cfg.must_pass(cfg.entry.id, r.id, {i.id for i in inv},
-                                     edge_ok=_assume_true('self.shift is not None')):
+                                     edge_ok=assume(('self.shift is None', False))):
             okf = False
     ctx.ob(rid, 'NautilusBound.sample:returned-in-original-frame', okf, f.where(),
            'returned points pass through the inverse phase shift whenever a shift exists' if okf
@@ -485,9 +472,8 @@ def rule_M1(ctx, rid='M1'):
     calls = [ccfg.node_of(x).id for x in _contains_calls(c.node) if ccfg.has(x)]
     okc = bool(fw) and all(
         ccfg.must_pass(ccfg.entry.id, x, {n.id for n in fw},
-                       edge_ok=_assume_true('self.shift is not None')) for x in calls) and all(
-        any(unparse(ccfg.nodes[t].expr) == 'self.shift is not None' and lab is True
-            for t, lab in ccfg.strict_guards(n.id)) for n in fw)
+                       edge_ok=assume(('self.shift is None', False))) for x in calls) and all(
+        ccfg.has_fact(n.id, 'self.shift is None', False) for n in fw)
     ctx.ob(rid, 'NautilusBound.contains:tests-in-shifted-frame', okc, c.where(),
            'contains() applies the forward phase shift before any member test, under the same '
            'guard as sample() applies the inverse' if okc else
@@ -567,10 +553,8 @@ def rule_M3(ctx, rid='M3'):
     ok = False
     for nn in cube_set:
         if isinstance(nn.ast.value, ast.Call) and dotted(nn.ast.value.func) == 'UnitCube.compute':
-            for t, lab in cfg.strict_guards(nn.id):
-                e, neg = strip_not(cfg.nodes[t].expr)
-                if isinstance(e, ast.Name) and e.id == 'unit' and (lab is True) != neg:
-                    ok = True
+            if cfg.has_fact(nn.id, 'unit', True):
+                ok = True
     ctx.ob(rid, 'Union.compute:cube-when-unit', ok, f.where(),
            'a unit-restricted union always owns a cube' if ok else
            'unit=True does not lead to a cube: the restriction would be silently dropped')
@@ -788,7 +772,7 @@ def rule_M5(ctx, rid='M5'):
             root_attr(c.func.value, f.self_name)[0] == 'bounds' and cfg.has(c)]
     lpn = cfg.node_of(lp).id
     okp = bool(apps) and all(
-        cfg.must_pass(a, cfg.exit.id, {lpn}, edge_ok=_assume_true('len(self.bounds) > 1'))
+        cfg.must_pass(a, cfg.exit.id, {lpn}, edge_ok=assume(('len(self.bounds) > 1', True)))
         for a in apps)
     ctx.ob(rid, 'Sampler.add_bound:split-after-every-append', okp, f.where(lp),
            'every path that appends a bound splits the earlier shells before returning' if okp
